@@ -56,6 +56,11 @@ impl SixelParser {
             self.parse_char(ch)?;
         }
         self.parse_char('#')?;
+        // rows are grown on demand while decoding: bring them all to the width of the longest one
+        let row_len = self.picture_data.iter().map(Vec::len).max().unwrap_or(0);
+        for line in &mut self.picture_data {
+            line.resize(row_len, 0);
+        }
         let mut picture_data = Vec::new();
         for y in 0..self.height() {
             let line = &self.picture_data[y as usize];
